@@ -44,6 +44,30 @@ pub mod _benchable {
     pub use super::iter::Bytes;
 }
 
+/// Verification hooks (off unless built with `--cfg httparse_verif`).
+#[cfg(httparse_verif)]
+#[doc(hidden)]
+#[allow(missing_docs)]
+pub mod _verif {
+    pub use super::iter::verif_counters::{ADVANCED, AVX2_LOADS, PEEK_N, SSE42_LOADS};
+    pub use super::simd::verif::*;
+
+    /// The four byte-class predicates: 0 = uri, 1 = header value, 2 = header name, 3 = method.
+    pub fn class(pred: u8, b: u8) -> Option<bool> {
+        match pred {
+            0 => Some(super::is_uri_token(b)),
+            1 => Some(super::is_header_value_token(b)),
+            2 => Some(super::is_header_name_token(b)),
+            3 => Some(super::is_method_token(b)),
+            _ => None,
+        }
+    }
+
+    pub fn debug_assertions() -> bool {
+        cfg!(debug_assertions)
+    }
+}
+
 /// Determines if byte is a method token char.
 ///
 /// > ```notrust
